@@ -1499,94 +1499,198 @@ func oracle(c Case) vkit.Outcome {
 	return out
 }
 
+var reLabelLine = regexp.MustCompile(`^[A-Za-z_][A-Za-z_0-9]*:$`)
+
 // locateParseFailure narrows a format (parse) error down to the smallest
-// bracket-balanced group of lines that the formatter's parser rejects on its
-// own, descending into blocks; parser errors are often reported far behind the
+// statement (a bracket-balanced group of lines) that the formatter's parser
+// rejects on its own, descending through function bodies and the blocks of
+// control-flow statements; parser errors are often reported far behind the
 // construct that derailed the parse. It returns the first and last line
-// (1-based) of that group, or 0, 0. Only the formatter's parser is consulted;
-// this is a naming aid for signatures.
+// (1-based) of that statement, or 0, 0. Only the formatter's parser is
+// consulted; this is a naming aid for signatures.
 func locateParseFailure(src string, raw []tok) (int, int) {
 	lines := strings.Split(src, "\n")
-	// net bracket depth change per line, from tokens (strings and comments
-	// are not tokens, so their braces do not count)
+	// multi-line comments are taken out: their inner lines are not statements
+	for _, rc := range rawCommentsOf(src) {
+		if n := strings.Count(rc.text, "\n"); n > 0 && rc.block {
+			for l := rc.line; l <= rc.line+n && l <= len(lines); l++ {
+				if l == rc.line {
+					if i := strings.Index(lines[l-1], "/*"); i >= 0 {
+						lines[l-1] = lines[l-1][:i]
+					}
+				} else if l == rc.line+n {
+					if i := strings.Index(lines[l-1], "*/"); i >= 0 {
+						lines[l-1] = lines[l-1][i+2:]
+					}
+				} else {
+					lines[l-1] = ""
+				}
+			}
+		}
+	}
 	delta := make([]int, len(lines)+2)
-	hasTok := make([]bool, len(lines)+2)
-	for _, t := range raw {
-		if t.line < 1 || t.line > len(lines) || t.cls == tokenizer.EndOfTokensClass {
-			continue
-		}
-		if !isSpecial(t, ";") {
-			hasTok[t.line] = true
-		}
-		if t.cls != tokenizer.SpecialTokenClass {
+	lastOpen := make([]int, len(lines)+2) // raw index of the last "{" on the line, or -1
+	for i := range lastOpen {
+		lastOpen[i] = -1
+	}
+	for i, t := range raw {
+		if t.line < 1 || t.line > len(lines) || t.cls != tokenizer.SpecialTokenClass {
 			continue
 		}
 		switch t.s {
-		case "{", "(", "[":
+		case "{":
+			delta[t.line]++
+			lastOpen[t.line] = i
+		case "{}":
+			// "{" and "}" on different lines are one token too
+			if !strings.Contains(lines[t.line-1], "{}") {
+				for l := t.line + 1; l <= len(lines); l++ {
+					if strings.HasPrefix(strings.TrimSpace(lines[l-1]), "}") {
+						delta[t.line]++
+						delta[l]--
+						lastOpen[t.line] = i
+						break
+					}
+					if strings.TrimSpace(lines[l-1]) != "" && !strings.HasPrefix(strings.TrimSpace(lines[l-1]), "//") {
+						break
+					}
+				}
+			}
+		case "(", "[":
 			delta[t.line]++
 		case "}", ")", "]":
 			delta[t.line]--
 		}
 	}
-	fails := func(from, to int) bool { // lines from..to inclusive, 1-based
-		text := strings.Join(lines[from-1:to], "\n")
-		_, err := fmtSrc(text, "fragment")
+	fails := func(sel []int) bool {
+		var b strings.Builder
+		for _, l := range sel {
+			b.WriteString(lines[l-1] + "\n")
+		}
+		_, err := fmtSrc(b.String(), "fragment")
 		return err != nil
 	}
+	span := func(from, to int) []int {
+		var sel []int
+		for l := from; l <= to; l++ {
+			sel = append(sel, l)
+		}
+		return sel
+	}
+	isSeparator := func(l int) bool {
+		t := strings.TrimSpace(lines[l-1])
+		return strings.HasPrefix(t, "case ") || strings.HasPrefix(t, "default:") || strings.HasPrefix(t, "} else") || strings.HasPrefix(t, "} catch")
+	}
 	lo, hi := 1, len(lines)
-	if !fails(lo, hi) {
+	if !fails(span(lo, hi)) {
 		return 0, 0
 	}
-	for depthGuard := 0; depthGuard < 12; depthGuard++ {
-		// split lo..hi into balanced groups
+	for guard := 0; guard < 16; guard++ {
+		// the statements of the region lo..hi: balanced groups of lines, not
+		// counting the lines that only separate the blocks of one statement
 		type group struct{ from, to int }
 		var groups []group
-		d, start := 0, lo
+		d, start := 0, -1
 		for l := lo; l <= hi; l++ {
+			if d == 0 && isSeparator(l) && guard > 0 {
+				start = -1
+				continue
+			}
+			if start < 0 {
+				start = l
+			}
 			d += delta[l]
 			if d <= 0 {
+				if t := strings.TrimSpace(lines[l-1]); start == l && reLabelLine.MatchString(t) {
+					continue // a label: part of the loop that follows
+				}
 				groups = append(groups, group{start, l})
-				start, d = l+1, 0
+				start, d = -1, 0
 			}
 		}
-		if start <= hi {
+		if start > 0 {
 			groups = append(groups, group{start, hi})
 		}
-		// a group that ends in "} else ..." / "} catch" continues in the next
-		var merged []group
-		for _, g := range groups {
-			first := strings.TrimSpace(lines[g.from-1])
-			if len(merged) > 0 && (strings.HasPrefix(first, "} else") || strings.HasPrefix(first, "} catch") || strings.HasPrefix(first, "}(") || strings.HasPrefix(first, "})")) {
-				merged[len(merged)-1].to = g.to
+		var culprit *group
+		for i := range groups {
+			g := groups[i]
+			if g.from == lo && g.to == hi && guard == 0 {
 				continue
 			}
-			merged = append(merged, g)
-		}
-		found := false
-		for _, g := range merged {
-			if g.from == lo && g.to == hi {
+			if strings.TrimSpace(strings.Join(lines[g.from-1:g.to], "")) == "" {
 				continue
 			}
-			any := false
-			for l := g.from; l <= g.to; l++ {
-				any = any || hasTok[l]
-			}
-			if any && fails(g.from, g.to) {
-				lo, hi = g.from, g.to
-				found = true
+			if fails(span(g.from, g.to)) {
+				culprit = &groups[i]
 				break
 			}
 		}
-		if !found {
-			// no proper part fails on its own: look inside the block
-			if hi-lo >= 2 && delta[lo] > 0 && fails(lo+1, hi-1) {
-				lo, hi = lo+1, hi-1
-				continue
+		if culprit == nil {
+			if guard == 0 {
+				// the whole file fails but no top-level group does
+				return lo, hi
 			}
-			break
+			return lo - 1, hi + 1 // the statement whose inside we were looking at
 		}
+		lo, hi = culprit.from, culprit.to
+		// descend only into a statement block: first line ends in a "{" that
+		// opens a block, last line closes it
+		if hi-lo < 2 || lastOpen[lo] < 0 || braceIsComposite(raw, lastOpen[lo], false) && !strings.HasPrefix(strings.TrimSpace(lines[lo-1]), "func") {
+			return lo, hi
+		}
+		first := strings.TrimSpace(lines[lo-1])
+		if !strings.HasSuffix(first, "{") && !strings.Contains(first, "{ //") && !strings.Contains(first, "{ /*") {
+			return lo, hi
+		}
+		if strings.HasPrefix(first, "type ") || strings.HasPrefix(first, "const") || strings.HasPrefix(first, "var") || strings.HasPrefix(first, "import") {
+			return lo, hi
+		}
+		// does the statement fail because of its inside?
+		var inner []int
+		for l := lo + 1; l < hi; l++ {
+			if !isSeparator(l) {
+				inner = append(inner, l)
+			}
+		}
+		if len(inner) == 0 || !fails(inner) {
+			return lo, hi
+		}
+		lo, hi = lo+1, hi-1
 	}
 	return lo, hi
+}
+
+// headerHasComposite reports whether a composite literal occurs in the
+// control-flow header that starts at raw[first] (before the "{" of its body).
+func headerHasComposite(raw []tok, first, last int) bool {
+	depth := 0
+	for k := first + 1; k <= last && k < len(raw); k++ {
+		t := raw[k]
+		if t.cls != tokenizer.SpecialTokenClass {
+			continue
+		}
+		switch t.s {
+		case "(", "[":
+			depth++
+		case ")", "]":
+			depth--
+		case "{}":
+			if braceIsComposite(raw, k, depth == 0) {
+				return true
+			}
+			if depth == 0 {
+				return false
+			}
+		case "{":
+			if braceIsComposite(raw, k, depth == 0) {
+				return true
+			}
+			if depth == 0 {
+				return false
+			}
+		}
+	}
+	return false
 }
 
 // classifyLines names the construct of a group of lines that fails to parse.
@@ -1614,31 +1718,19 @@ func classifyLines(raw []tok, from, to int, detail string) string {
 		}
 	}
 	kind := stmtKind(raw, first, first)
+	if kind == "if-header" {
+		// an if / else-if chain: the header of any of its links may be the one
+		for k := first + 1; k+1 <= last; k++ {
+			if raw[k].s == "else" && raw[k].cls == tokenizer.ReservedTokenClass && raw[k+1].s == "if" {
+				if headerHasComposite(raw, k+1, last) {
+					return "composite-literal-in-control-header"
+				}
+			}
+		}
+	}
 	if strings.HasSuffix(kind, "-header") {
-		// is there a composite literal before the body?
-		depth := 0
-		for k := first + 1; k <= last; k++ {
-			t := raw[k]
-			if t.cls != tokenizer.SpecialTokenClass {
-				continue
-			}
-			switch t.s {
-			case "(", "[":
-				depth++
-			case ")", "]":
-				depth--
-			case "{}":
-				if braceIsComposite(raw, k, depth == 0) {
-					return "composite-literal-in-control-header"
-				}
-			case "{":
-				if braceIsComposite(raw, k, depth == 0) {
-					return "composite-literal-in-control-header"
-				}
-				if depth == 0 {
-					return kind + " (" + detail + ")"
-				}
-			}
+		if headerHasComposite(raw, first, last) {
+			return "composite-literal-in-control-header"
 		}
 		return kind + " (" + detail + ")"
 	}
